@@ -403,6 +403,42 @@ def judge_tree(ctx, rng, shape, tag):
                       {'kind': 'tree', 'tag': tag, 'leaves': leaves})
 
 
+def judge_self_paired(ctx, tag, k, lock, items, foreign, extra):
+    """The builders were given pairwise distinct leaves, so every node of
+    their tree - filler positions included - has two different children and
+    no script but the committed ones can run. The forgery that equal children
+    would allow: a node whose two children are equal has root 0 (the xor of
+    two equal digests), and (X, sha256(X)) opens `MERKLEVAL 00..00` for ANY
+    script X. Every sibling commitment an honest proof reveals is tried as
+    such a node, with a foreign leaf X below it."""
+    zero_lock = merkle.lock_bytes(bytes(32))
+    nlev = len(items) // 2
+    for lv in range(nlev + 1):
+        ctx.evaluated()
+        if lv == nlev:
+            forged = [merkle.H(foreign), foreign]       # the root itself
+        else:
+            forged = [merkle.H(foreign), foreign,
+                      merkle.H(items[2 * lv + 1]), zero_lock] \
+                + items[2 * lv + 2:]
+        wit = witness_bytes(forged)
+        got = run_auth([wit, lock])
+        log = list(Beacon.log)
+        ctx.count('self_paired_forgeries_tried')
+        if got is not False or log or Tr.counts.get(foreign, 0):
+            ctx.violation('builder-tree-admits-foreign-leaf', f'{tag}: a '
+                          'script that was never handed to the builder runs '
+                          f'below the sibling of leaf #{k} at level {lv}: '
+                          'that position holds a node with two EQUAL children '
+                          '(root 00..00), which any (script, sha256(script)) '
+                          'pair opens', dict(extra, kind='self-paired',
+                                             lock=lock, witness=wit,
+                                             foreign=foreign),
+                          'False, nothing started',
+                          f'{got!r} beacon={[x.hex() for x in log]}'[:120])
+            return
+
+
 def judge_builder(ctx, rng, nleaves, which):
     tools = env.mods()[2]
     uid = rng.getrandbits(32).to_bytes(4, 'big')
@@ -441,6 +477,9 @@ def judge_builder(ctx, rng, nleaves, which):
             elif k % 3 == 0:
                 judge_corruptions(ctx, rng, f'{tag}#{k}', lock, root, its,
                                   leaf_script(rng, b'\xee' * 5, pad_ok=False))
+            judge_self_paired(ctx, tag, k, lock, its,
+                              leaf_script(rng, b'\xec' * 5, pad_ok=False),
+                              {'leaves': leaves, 'which': which})
     # history: a prioritized tree that was already queried is extended with
     # more leaves through the builder's `tree` argument
     if which == 'prioritized' and nleaves >= 2 and nleaves % 2 == 0:
@@ -551,6 +590,13 @@ def replay(case, ctx):
                     x not in executed and Tr.counts.get(x, 0)
                     for x in supplied)):
                 ctx.violation('uncommitted-script-executed', 'replay', case)
+        elif k == 'self-paired':
+            ctx.evaluated()
+            got = run_auth([case['witness'], case['lock']])
+            if got is not False or Beacon.log or \
+                    Tr.counts.get(case['foreign'], 0):
+                ctx.violation('builder-tree-admits-foreign-leaf', 'replay',
+                              case, False, repr(got)[:60])
         else:
             ctx.evaluated()
     finally:
